@@ -32,7 +32,7 @@ class C02(Check):
     prop_module = "PoxModel.Properties.C02"
     lean_targets = ["drv_c02"]
     driver = "drv_c02"
-    theorems = ["Pox.C02.ctl_framing", "Pox.C02.ctl_prefix", "Pox.C02.sw_framing", "Pox.C02.sw_prefix", "Pox.C02.slice_framing"]
+    theorems = ["Pox.C02.ctl_framing", "Pox.C02.ctl_prefix", "Pox.C02.sw_framing", "Pox.C02.sw_prefix", "Pox.C02.slice_framing", "Pox.C02.ctl_feed_no_disconnect"]
     anchors = [("pox/openflow/of_01.py", "Connection.read"), ("pox/datapaths/switch.py", "OFConnection.read"),
                ("pox/lib/ioworker/__init__.py", "IOWorker._do_recv"), ("pox/lib/ioworker/__init__.py", "IOWorker._push_receive_data"),
                ("pox/lib/ioworker/__init__.py", "IOWorker.peek"), ("pox/lib/ioworker/__init__.py", "IOWorker.consume_receive_buf")]
